@@ -1,5 +1,9 @@
 OUTSIDE = "wall-clock behaviour; tries/timeouts above INT_MAX (not accepted by the option parser); server counts above 16 for the timeout kernel"
-ASSUMPTIONS = ["clock values within [0, 2^40] seconds", "ares_rand_bytes returns arbitrary bytes", "server count is an arbitrary value in 1..16"]
+ASSUMPTIONS = ["budget theorem (DESIGN C06): every transmission happens in one ares_send_query level (sendquery.c: at most one per level); each level is entered either first, or after try_count+1 (requeue_step.c, timeouts_step.c, sendquery.c failure paths), or through the read loop's deferred list for one EDNS downgrade / one TCP upgrade (answer_step.c: neither can repeat) or a BADCOOKIE resend (C17: at most 3) - hence tx <= servers*tries + 1 + 1 + 3", "clock values within [0, 2^40] seconds", "ares_rand_bytes returns arbitrary bytes", "server count is an arbitrary value in 1..16"]
+
+import os, sys
+sys.path.insert(0, os.path.join(os.path.dirname(os.path.abspath(__file__)), "..", "machine"))
+import mjobs
 
 def jobs(tier, seed):
     J = []
@@ -7,4 +11,6 @@ def jobs(tier, seed):
                   cbmc=["--conversion-check"], support=["vp_rt.c"],
                   bound="all timeout in 1..INT_MAX, maxtimeout in 0..INT_MAX, tries in 1..INT_MAX, servers 1..16, "
                         "try_count < servers*tries, arbitrary metrics buckets, arbitrary jitter; one call"))
+    J += mjobs.requeue_jobs(tier)
+    J += [j for j in mjobs.answer_jobs(tier, kf_group="c06_answer") if j["name"].endswith("current")]
     return J
